@@ -114,6 +114,9 @@ func (e *Enc) encCall(v ssa.Value, c *ssa.CallCommon, st *State, guard string, d
 	variant := ""
 	if e.fc != nil {
 		variant = e.fc.Variant
+		if v, ok := e.fc.Uses[ci.key]; ok {
+			variant = v
+		}
 	}
 	e.callCount["site:"+ci.key]++
 	fc := e.w.callContractFor(ci.key, e.mode.String(), variant)
